@@ -85,11 +85,23 @@ func verifReceiverFor(name string) system.Collection {
 	case "number":
 		return system.Collection{system.Integer(verifrt.NondetIntRange("recv.i", 1, 100))}
 	}
-	switch verifrt.Choose("recv.kind", 3) {
+	// every kind of single item a function can be applied to (a conversion dispatches on it, and may hand its
+	// arguments on to another function of a different arity)
+	switch verifrt.Choose("recv.kind", 8) {
 	case 0:
 		return system.Collection{system.Integer(verifrt.NondetIntRange("recv.i", 0, 3))}
 	case 1:
 		return system.Collection{system.String(verifrt.NondetString("recv.s", 1))}
+	case 3:
+		return system.Collection{system.Boolean(verifrt.NondetBool("recv.b"))}
+	case 4:
+		return system.Collection{&dtpb.Boolean{Value: verifrt.NondetBool("recv.fb")}}
+	case 5:
+		return system.Collection{system.MustParseDecimal("1.5")}
+	case 6:
+		return system.Collection{system.MustParseQuantity("2", "mg")}
+	case 7:
+		return system.Collection{system.MustParseDate("2020-02-03")}
 	default:
 		return system.Collection{&dtpb.HumanName{Family: &dtpb.String{Value: verifrt.NondetString("recv.fam", 1)}}}
 	}
